@@ -502,23 +502,24 @@ def lookalike_job(arg):
     return rep
 
 
-def fork_job(arg):
+def fork_job(arg, prop="C17"):
     """Worker processes forked from a process whose DBFS store has already transferred blobs read different paths at the
     same time (their downloads are lined up by a barrier in the fake dbutils): each gets its own value."""
-    cache, tags = arg
+    cache, tags = arg[:2]
+    commit_type = arg[2] if len(arg) > 2 else None
     import multiprocessing
 
     import dds
     from vp.fakedbutils import FakeDbutils
 
-    rep = core.Report("C17")
+    rep = core.Report(prop)
     rep.evaluations = 1
     dds.accept_module("checks")
-    case = {"fork": True, "cache": cache, "tags": tags}
+    case = {"fork": True, "cache": cache, "tags": tags, "commit_type": commit_type}
     with core.Scratch("vp_c17f_") as root:
         _DBFS_ROOT[0] = root
         dbu = FakeDbutils(root)
-        dds.set_store("dbfs", internal_dir="dbfs:/internal", data_dir="dbfs:/data", dbutils=dbu, cache_objects=cache)
+        dds.set_store("dbfs", internal_dir="dbfs:/internal", data_dir="dbfs:/data", dbutils=dbu, cache_objects=cache, commit_type=commit_type)
         for t in tags:
             dds.keep("/c17f/%s" % t, produce, t)
         # the parent has transferred blobs (stores and one load) before the workers are forked
